@@ -20,6 +20,10 @@ pub const TOKENS: &[&str] = &[
 pub enum Case {
     Line(String),
     Pair(String, String),
+    /// end-to-end: a small file of directive / continuation-like / text lines through a whole
+    /// build, judged by the reference model (line kept vs consumed, where a directive ends,
+    /// prefix-less multi-line directives rejected)
+    File(super::c01::Case),
 }
 
 fn kind_of(t: &DirectiveType) -> Kind {
@@ -128,10 +132,56 @@ pub fn check_pair(dline: &str, cline: &str) -> Result<bool, (String, String)> {
     }
 }
 
+/// The README's "as many spaces as the prefix is long" can be read in bytes or in characters
+/// for a non-ASCII prefix; the checks above take no side. But an implementation must mean ONE
+/// thing by it: probe a line with exactly byte-length spaces and one with exactly
+/// character-length spaces and require both answers to come from the same reading.
+pub fn check_space_consistency(dline: &str) -> Check {
+    let Some(m) = grammar::detect(dline) else { return Ok(()) };
+    if !m.kind.multi_line() || m.prefix.is_ascii() || m.prefix.is_empty() {
+        return Ok(());
+    }
+    let nb = m.prefix.len();
+    let nc = m.prefix.chars().count();
+    let probe = |n: usize| -> Option<Option<String>> {
+        let line = format!("{}{}x", m.indent, " ".repeat(n));
+        let mut d = std::panic::catch_unwind(|| Directive::detect_from(dline)).ok()??;
+        let r = std::panic::catch_unwind(move || {
+            let r = d.add_line(&line);
+            (d, r)
+        })
+        .ok()?;
+        Some(match r.1 {
+            Ok(()) => r.0.args.last().cloned(),
+            Err(()) => None,
+        })
+    };
+    let (Some(at_bytes), Some(at_chars)) = (probe(nb), probe(nc)) else {
+        return viol("C15 panic", format!("directive {dline:?}: add_line panicked on a space continuation"));
+    };
+    // reading "bytes": (Some("x"), None); reading "characters": (Some(pad + "x"), Some("x"))
+    let pad = " ".repeat(nb - nc);
+    let bytes_reading = at_bytes == Some("x".to_string()) && at_chars.is_none();
+    let chars_reading = at_bytes == Some(format!("{pad}x")) && at_chars == Some("x".to_string());
+    if !bytes_reading && !chars_reading {
+        return viol(
+            "C15 space-continuation-inconsistent",
+            format!(
+                "directive {dline:?} (prefix of {nb} bytes / {nc} characters): a line with {nb} spaces gives {at_bytes:?}, a line with {nc} spaces gives {at_chars:?}; neither the byte-length nor the character-length reading of 'as many spaces as the prefix is long' explains both"
+            ),
+        );
+    }
+    Ok(())
+}
+
 fn check_case(case: &Case) -> Check {
     match case {
         Case::Line(l) => check_line(l),
-        Case::Pair(d, c) => check_pair(d, c).map(|_| ()),
+        Case::Pair(d, c) => {
+            check_space_consistency(d)?;
+            check_pair(d, c).map(|_| ())
+        }
+        Case::File(f) => super::c01::check(f, &mut Stats::default()).map_err(|(m, s)| (m, s.replace("C01", "C15 file"))),
     }
 }
 
@@ -181,6 +231,7 @@ fn minimise(case: &Case) -> Case {
     loop {
         let mut progress = false;
         let cands: Vec<Case> = match &cur {
+            Case::File(_) => vec![],
             Case::Line(l) => (0..l.chars().count())
                 .map(|i| Case::Line(l.chars().enumerate().filter(|(j, _)| *j != i).map(|(_, c)| c).collect()))
                 .collect(),
@@ -279,6 +330,21 @@ impl Prop for C15 {
         }
         ctx.stats.exhaustive.insert(format!("lines_up_to_{max_line}_tokens"), ctx.share(n_lines));
         ctx.heartbeat();
+        // consistency of the space-continuation rule for non-ASCII prefixes
+        if ctx.shard == 0 {
+            for indent in ["", " ", "\t"] {
+                for prefix in ["é", "語 ", "→→", "§ ", "é-", "-é"] {
+                    for name in ["", "run", "temp", "write"] {
+                        let dl = format!("{indent}{prefix}TXTPP#{name} a");
+                        ctx.stats.evaluations += 1;
+                        ctx.stats.nontrivial_counted += 1;
+                        if first_fail.is_none() && check_space_consistency(&dl).is_err() {
+                            first_fail = Some(Case::Pair(dl, String::new()));
+                        }
+                    }
+                }
+            }
+        }
         // pairs
         let dls = directive_lines();
         let n_cont = count_lines(max_cont);
@@ -353,6 +419,7 @@ impl Prop for C15 {
                     }
                     Err(e) => Err(e),
                 },
+                Case::File(_) => Ok(()),
             }
         };
         let red = |c: &Case| -> Vec<Case> {
@@ -364,6 +431,89 @@ impl Prop for C15 {
             }
         };
         ctx.drive(2, n, 40, &gen_random, &chk, &red);
+        if !ctx.stats.violations.is_empty() {
+            return;
+        }
+        // end-to-end files
+        let total = if ctx.quick { 24_000 } else { 600_000 };
+        let n = ctx.share(total);
+        let gen_file = |c: &mut Choices| -> Case {
+            let kinds = ["", "write", "temp", "tag", "include", "after", "writex"];
+            let mut lines: Vec<String> = vec![];
+            let n = 2 + c.below(4);
+            let mut last: Option<(String, String)> = None;
+            for _ in 0..n {
+                let l = match c.weighted(&[4, 4, 3]) {
+                    0 => {
+                        let ind = *c.pick(&["", " ", "\t", "  "]);
+                        let pre = *c.pick(&["", "-", "//", "// ", "# "]);
+                        let k = *c.pick(&kinds);
+                        let arg = *c.pick(&["", " a", " a  ", " T", " b.txt"]);
+                        last = Some((ind.to_string(), pre.to_string()));
+                        format!("{ind}{pre}TXTPP#{k}{arg}")
+                    }
+                    1 => {
+                        let (ind, pre) = last.clone().unwrap_or_default();
+                        let lead = match c.below(5) {
+                            0 => pre.clone(),
+                            1 => " ".repeat(pre.len()),
+                            2 => pre.trim_end().to_string(),
+                            3 => " ".repeat(pre.len().saturating_sub(1)),
+                            _ => String::new(),
+                        };
+                        format!("{ind}{lead}{}", c.pick(&["x", "", " y", "TXTPP#write z", "T", "-"]))
+                    }
+                    _ => c.pick(&["text", "T here", "", " ", "-", "// c", "TXTPP# x", "TXTPPx#"]).to_string(),
+                };
+                lines.push(l);
+            }
+            let mut text = lines.join("\n");
+            if c.chance(3, 4) {
+                text.push('\n');
+            }
+            let mut project = crate::gen::project::Project::default();
+            project.put("t.txt.txtpp", text);
+            if c.chance(1, 2) {
+                project.put("b.txt", "included\n");
+            }
+            Case::File(super::c01::Case {
+                project,
+                opts: crate::runner::RunOpts {
+                    mode: crate::runner::ModeS::Build,
+                    trailing_newline: true,
+                    threads: 1,
+                    recursive: false,
+                    inputs: vec!["t.txt".into()],
+                    shell: String::new(),
+                },
+                golden: None,
+            })
+        };
+        let chk_file = |c: &Case, st: &mut Stats| -> Check {
+            let Case::File(f) = c else { return Ok(()) };
+            let mut tmp = Stats::default();
+            let r = super::c01::check(f, &mut tmp).map_err(|(m, s)| (m, s.replace("C01", "C15 file")));
+            for (k, v) in tmp.excluded {
+                *st.excluded.entry(k).or_insert(0) += v;
+            }
+            if !tmp.nontrivial.is_empty() || tmp.classes.contains_key("expect_err") {
+                st.nontrivial_hash(&serde_json::to_string(f).unwrap_or_default());
+            }
+            st.class("end_to_end_file");
+            st.sample(|| serde_json::json!({"file_case": f}), 5);
+            r
+        };
+        let red_file = |c: &Case| -> Vec<Case> {
+            match c {
+                Case::File(f) => super::reduce_project(&f.project)
+                    .into_iter()
+                    .filter(|p| p.files.contains_key("t.txt.txtpp"))
+                    .map(|p| Case::File(super::c01::Case { project: p, opts: f.opts.clone(), golden: None }))
+                    .collect(),
+                _ => vec![],
+            }
+        };
+        ctx.drive(3, n, 60, &gen_file, &chk_file, &red_file);
     }
 
     fn replay(&self, case: &Value) -> Check {
